@@ -188,15 +188,26 @@ def c06Code : Ev → Option (Nat × Nat)
   | .flushed sink => some (1, sink)
   | _ => none
 
-/-- **Limit of the property in the code as it is (F12, on the model).** `C06_flush_step` flushes every *active*
-    sink — the sinks of loggers that are still valid (`is_valid_logger()` filter of `_flush_and_run_active_sinks`,
-    extracted as `flushOnlyValidLoggers`). A statement logged through a logger that was removed (asynchronously)
-    before the flush is written to that logger's sink but the sink is **not flushed** when `flush_log()` returns:
-    here the log is `write sink 0, flushed sink 1`, the flag is raised and the caller released. -/
-theorem C06_removed_logger_sink_not_flushed :
+/-- the same machine with the `is_valid_logger()` filter of `_flush_and_run_active_sinks` still in place (before the repair
+    of F12) -/
+def c06TwoInitOld : BSt := { c06TwoInit with cfg := { c06TwoCfg with flushInvalidatedLoggers := false } }
+
+/-- **F12 on the model, before the repair.** With the filter, `C06_flush_step` flushes only the sinks of loggers that are
+    still valid: a statement logged through a logger that was removed (asynchronously) before the flush is written to
+    that logger's sink but the sink is **not flushed** when `flush_log()` returns — the log is
+    `write sink 0, flushed sink 1`, the flag is raised and the caller released. -/
+theorem C06_removed_logger_sink_not_flushed_unrepaired :
+    (runOps c06TwoInitOld c06Removed).flags = [0] ∧
+    (runOps c06TwoInitOld c06Removed).actors.map (fun x => x.pend matches .none) = [true] ∧
+    (runOps c06TwoInitOld c06Removed).log.reverse.filterMap c06Code = [(0, 0), (1, 1)] := by
+  decide
+
+/-- **F12 repaired** (`flushInvalidatedLoggers`, extracted as `flushOnlyValidLoggers = false`): the sink of the logger that
+    is marked for removal is flushed too before the flag is raised. -/
+theorem C06_removed_logger_sink_flushed :
     (runOps c06TwoInit c06Removed).flags = [0] ∧
     (runOps c06TwoInit c06Removed).actors.map (fun x => x.pend matches .none) = [true] ∧
-    (runOps c06TwoInit c06Removed).log.reverse.filterMap c06Code = [(0, 0), (1, 1)] := by
+    (runOps c06TwoInit c06Removed).log.reverse.filterMap c06Code = [(0, 0), (1, 0), (1, 1)] := by
   decide
 
 /-- a dropping queue of 64 bytes: the Flush request (40 bytes) does not fit behind a 47-byte statement -/
